@@ -532,10 +532,10 @@ class VectorT {
 
         /// return the maximal absolute component
         Scalar max_abs() const {
-            return std::abs(
+            return abs_value(
                 *std::max_element(values_.cbegin(), values_.cend(),
                     [](const Scalar &a, const Scalar &b) {
-                return std::abs(a) < std::abs(b);
+                return abs_value(a) < abs_value(b);
             }));
         }
 
@@ -546,10 +546,10 @@ class VectorT {
 
         /// return the minimal absolute component
         Scalar min_abs() const {
-            return std::abs(
+            return abs_value(
                 *std::min_element(values_.cbegin(), values_.cend(),
                     [](const Scalar &a, const Scalar &b) {
-                return std::abs(a) < std::abs(b);
+                return abs_value(a) < abs_value(b);
             }));
         }
 
